@@ -67,11 +67,11 @@ SPEC = {
                "TestGRPCScenarioTags/one_instance_reruns_a_call_in_another_scenario": 0.24,
                "TestGRPCScenarioTags/call_shared_by_invoked_scenarios": 0.45, "TestGRPCScenarioTags/three_or_more_scenarios_invoked": 0.3,
                "TestGRPCScenarioTags/instances_ge_2_with_shared_call": 0.15, "TestGRPCScenarioTags/step_with_non_ok_status": 0.2,
-               "TestGRPCScenarioTags/step_rejected_by_postprocessor": 0.15, "TestGRPCScenarioTags/invocation_cut_short_by_postprocessor": 0.12,
+               "TestGRPCScenarioTags/step_rejected_by_postprocessor": 0.11, "TestGRPCScenarioTags/invocation_cut_short_by_postprocessor": 0.096,
                "TestGRPCScenarioTags/rejected_by_payload_assertion": 0.08, "TestGRPCScenarioTags/rejected_by_status_code_assertion": 0.06,
-               "TestGRPCScenarioTags/rejected_step_answered_ok": 0.07, "TestGRPCScenarioTags/rejected_step_answered_non_ok": 0.07,
-               "TestGRPCScenarioTags/step_with_assertion_that_holds": 0.09, "TestGRPCScenarioTags/instances_ge_2_with_rejected_step": 0.035, "TestGRPCJSONTags/mixed_tags_beyond_read_ahead": 0.3, "TestGRPCJSONTags/mixed_tags_beyond_read_ahead_tag_key_absent": 0.27,
-               "TestGRPCJSONTags/mixed_tags_beyond_read_ahead_one_instance": 0.12, "TestGRPCJSONTags/mixed_tags_beyond_read_ahead_instances_ge_2": 0.13,
+               "TestGRPCScenarioTags/rejected_step_answered_ok": 0.049, "TestGRPCScenarioTags/rejected_step_answered_non_ok": 0.07,
+               "TestGRPCScenarioTags/step_with_assertion_that_holds": 0.09, "TestGRPCScenarioTags/instances_ge_2_with_rejected_step": 0.028, "TestGRPCJSONTags/mixed_tags_beyond_read_ahead": 0.3, "TestGRPCJSONTags/mixed_tags_beyond_read_ahead_tag_key_absent": 0.27,
+               "TestGRPCJSONTags/mixed_tags_beyond_read_ahead_one_instance": 0.12, "TestGRPCJSONTags/mixed_tags_beyond_read_ahead_instances_ge_2": 0.098,
                "TestGRPCJSONTags/mixed_tags_beyond_read_ahead_long_file": 0.11, "TestGRPCJSONTags/mixed_tags_beyond_read_ahead_by_passes": 0.12,
                "TestGRPCJSONTags/within_read_ahead": 0.1,
                "TestGRPCCodes/shared_client": 0.2, "TestGRPCCodes/out_of_range_codes": 0.2},
